@@ -94,13 +94,12 @@ impl RtpsStatefulWriter {
             first_relevant_sample_seq_num,
             reader_proxy.durability_kind,
         );
-        if let Some(rp) = self
+        // A reader that is already matched keeps its protocol state
+        if !self
             .matched_readers
-            .iter_mut()
-            .find(|rp| rp.remote_reader_guid() == reader_proxy.remote_reader_guid)
+            .iter()
+            .any(|rp| rp.remote_reader_guid() == reader_proxy.remote_reader_guid)
         {
-            *rp = rtps_reader_proxy;
-        } else {
             self.matched_readers.push(rtps_reader_proxy);
         }
     }
